@@ -119,6 +119,9 @@ def main(chk):
                 params['noise'], params['bounded'] = combos[chk.dist.get('mechanism.mwem', 0) % len(combos)]
             if directed_targets:
                 params['targets'] = [names[-1]]            # with targets step 1 measures a downward closure that is larger than the list it starts from
+                if chk.dist.get('adagrid.targets', 0) % 2 == 0:
+                    params['split'] = None                 # default split: no step is so cheap that an uncharged (zero actual change) selection could hide an overspend elsewhere
+                chk.count('adagrid.targets')
         info = dict(mechanism=name, params={k: (v if not isinstance(v, list) else [(list(x) if isinstance(x, (list, tuple)) else x) for x in v]) for k, v in params.items()}, attrs=names, sizes=sizes, records=int(data.df.shape[0]))
         res = dprec.pair_of_runs(rng, name, params, data, seed=rng.randrange(2 ** 31))
         info['neighbour'] = res['neighbour']
@@ -171,10 +174,10 @@ def main(chk):
         line = skeleton_line(name, params, res['rec1'], budget, len(names))
         if line:
             alts = line if isinstance(line, list) else [line]
-            pend.append((info, [e['scale'] for e in res['rec1'].events if e['kind'] != 'select'], [e['kind'] for e in res['rec1'].events], len(lines), len(alts)))
+            pend.append((info, [e['scale'] for e in res['rec1'].events if e['kind'] != 'select'], [e['kind'] for e in res['rec1'].events], len(lines), len(alts), (name, params, data, pure, budget)))
             lines.extend(alts)
     outs = common.run_num(lines)
-    for (info, scales, kinds, start, nalt) in pend:
+    for (info, scales, kinds, start, nalt, ctx) in pend:
         ok = False
         for out in outs[start:start + nalt]:
             if isinstance(out, str):
@@ -187,8 +190,29 @@ def main(chk):
                 ok = True
                 break
         if not ok and not (info['mechanism'] == 'aim' and (info['params'].get('rounds') or 10 ** 9) < 0.9 * len(info['attrs'])):
-            chk.violation(dict(kind='skeleton', mechanism=info['mechanism']), '%s: sequence of releases / noise scales differs from the verified budget skeleton' % info['mechanism'],
-                          dict(info, code_scales=scales[:40], model_scales=ms[:40], code_kinds=kinds[:60], model_kinds=mk[:60]), found_input=False)
+            # the code no longer follows the verified skeleton: search other neighbours of the same dataset for one on which the budget is exceeded
+            name_, params_, data_, pure_, budget_ = ctx
+            found = None
+            import random as _random
+            for t in range(8 if chk.tier == 'quick' else 40):
+                try:
+                    r2 = dprec.pair_of_runs(_random.Random('%s-search-%d-%d' % (name_, chk.seed, t)), name_, params_, data_, seed=1000 + t)
+                    if 'error1' in r2 or 'error2' in r2 or r2['rec2'].diverged or len(r2['rec1'].events) != len(r2['rec2'].events):
+                        continue
+                    c2, _ = charge(r2['rec1'], r2['rec2'], pure_)
+                    if c2 is not None and float(sum(c2)) > budget_ * (1 + 1e-9) + 1e-15:
+                        found = dict(neighbour=r2['neighbour'], spent=float(sum(c2)), budget=budget_, run_seed=1000 + t)
+                        break
+                except Exception:
+                    continue
+            chk.count('skeleton-break.neighbour-search')
+            if found:
+                chk.violation(dict(kind='overspend', mechanism=info['mechanism'], aim_rounds_below_0_9_d=False),
+                              '%s spends %.6g of a budget of %.6g on the neighbour "%s" (found after the release sequence left the verified skeleton)' % (info['mechanism'], found['spent'], found['budget'], found['neighbour']),
+                              dict(info, search=found, code_scales=scales[:40], model_scales=ms[:40]), found_input=True)
+            else:
+                chk.violation(dict(kind='skeleton', mechanism=info['mechanism']), '%s: sequence of releases / noise scales differs from the verified budget skeleton' % info['mechanism'],
+                              dict(info, code_scales=scales[:40], model_scales=ms[:40], code_kinds=kinds[:60], model_kinds=mk[:60]), found_input=False)
     return chk.finish(rule='per mechanism (MST, AIM, MWEM+PGM gaussian/laplace x bounded/unbounded, Adaptive Grid with/without targets): random small datasets (2-4 attributes, sizes 1-4, 20-120 records), '
                       'eps in {.5,1,3,30}, delta in {1e-6,1e-9}, rounds / workload / max_model_size / threshold variations, one neighbour (remove one record; replace one under bounded adjacency); '
                       'run on D, then on D\' forced to the same released values and selections; every event charged by the actual change; sum vs budget; scale sequence vs the float skeleton. '
